@@ -245,3 +245,146 @@ func VerifHarness_C16_O4() {
 	st.Close()
 	verifReach("end")
 }
+
+func verifNewNetOnStore(n int, store Store) *verifNet {
+	vn := verifNewNet(n, 10) // keys, peers
+	vn.store = nil
+	vn.blocks = nil
+	vn.h = NewHashgraph(store, func(b *Block) error {
+		vn.blocks = append(vn.blocks, b)
+		return nil
+	}, nil)
+	if err := vn.h.Init(vn.set); err != nil {
+		panic(err)
+	}
+	return vn
+}
+
+func verifSameCoordinates(a, b CoordinatesMap) bool {
+	if len(a) != len(b) {
+		return false
+	}
+	for k, x := range a {
+		y, ok := b[k]
+		if !ok || x.Hash != y.Hash || x.Index != y.Index {
+			return false
+		}
+	}
+	return true
+}
+
+// C16/O5 (= C03/O6) — real gossip histories on a Badger-backed store: the
+// gossip-shaped DAG of C03/O5 (one exchange possibly missing: symbolic bit) is
+// run through a hashgraph on an in-memory store with a large cache (the
+// trivially correct model: it keeps the live objects) and through a hashgraph
+// on a BADGER store whose cache is smaller than the history (eviction of events
+// from the LRU and of the oldest entries of the per-creator windows).  The
+// consensus output is the same (store type and cache size do not matter), and
+// the database record of every event equals the live object of the reference
+// (ancestry coordinates included), the listings are complete and ordered, every
+// block record equals the delivered block — before and after close / reopen.
+func VerifHarness_C16_O5() {
+	n, steps := 3, 45
+	skip := -1
+	for st := 3; st < 11; st++ {
+		if skip < 0 && verifNondetBool(fmt.Sprintf("missing%d", st)) {
+			skip = st
+		}
+	}
+	ref := verifNewNet(n, 1000)
+	dag := verifGossipDAG(ref, n, steps, skip)
+	for i, e := range dag {
+		if err := ref.insertAndRun(verifFreshEvent(ref, e, dag, i)); err != nil {
+			panic(fmt.Sprintf("reference insert %d: %v", i, err))
+		}
+	}
+	dir := verifTempDir("c16o5")
+	cache := []int{12, 30, 1000}[verifChoice("cacheSize", 3)]
+	bst, err := NewBadgerStore(cache, dir, false, nil)
+	if err != nil {
+		panic(err)
+	}
+	alt := verifNewNetOnStore(n, bst)
+	for i, e := range dag {
+		if err := alt.insertAndRun(verifFreshEvent(alt, e, dag, i)); err != nil {
+			panic(fmt.Sprintf("insert %d on the Badger store (cache %d): %v", i, cache, err))
+		}
+	}
+	verifAssert("same-number-of-blocks-whatever-the-store", len(alt.blocks) == len(ref.blocks))
+	for k := range alt.blocks {
+		if k < len(ref.blocks) {
+			verifAssert("same-blocks-whatever-the-store", verifSameBlock(alt.blocks[k], ref.blocks[k]))
+		}
+	}
+	if verifChoice("closeAndReopen", 2) == 1 {
+		if err := bst.Close(); err != nil {
+			panic(err)
+		}
+		bst, err = NewBadgerStore(cache, dir, false, nil)
+		verifAssert("reopen-succeeds", err == nil)
+		if err != nil {
+			return
+		}
+	}
+	for i, e := range dag {
+		x := e.ev.Hex()
+		want, err := ref.store.GetEvent(x)
+		if err != nil {
+			panic(err)
+		}
+		got, derr := bst.dbGetEvent(x)
+		ok := derr == nil && got != nil
+		verifAssert("event-record-readable", ok)
+		if ok {
+			verifAssert("event-record-equals-the-live-object", got.Hex() == x && got.Signature == want.Signature && got.topologicalIndex == want.topologicalIndex && got.topologicalIndex == i &&
+				got.Body.selfParentIndex == want.Body.selfParentIndex && got.Body.otherParentIndex == want.Body.otherParentIndex &&
+				got.Body.creatorID == want.Body.creatorID && got.Body.otherParentCreatorID == want.Body.otherParentCreatorID)
+			verifAssert("event-record-carries-the-current-ancestry-coordinates", verifSameCoordinates(got.lastAncestors, want.lastAncestors) && verifSameCoordinates(got.firstDescendants, want.firstDescendants))
+		}
+		through, terr := bst.GetEvent(x)
+		verifAssert("event-readable-through-the-store-after-eviction", terr == nil && through != nil && through.Hex() == x)
+	}
+	tev, err := bst.dbTopologicalEvents(0, len(dag)+5)
+	okTopo := err == nil && len(tev) == len(dag)
+	if okTopo {
+		for i := range tev {
+			if tev[i].Hex() != dag[i].ev.Hex() {
+				okTopo = false
+			}
+		}
+	}
+	verifAssert("topological-listing-has-every-event-once-in-order", okTopo)
+	for c := 0; c < n; c++ {
+		var want []string
+		for _, e := range dag {
+			if e.creator == c {
+				want = append(want, e.ev.Hex())
+			}
+		}
+		got, err := bst.dbParticipantEvents(ref.peers[c].PubKeyString(), -1)
+		okList := err == nil && len(got) == len(want)
+		if okList {
+			for i := range got {
+				if got[i] != want[i] {
+					okList = false
+				}
+			}
+		}
+		verifAssert("participant-listing-complete-ordered-duplicate-free", okList)
+		// through the store, from an index that left the in-memory window
+		thr, err := bst.ParticipantEvents(ref.peers[c].PubKeyString(), 0)
+		verifAssert("participant-listing-through-the-store", err == nil && len(thr) == len(want)-1 && (len(thr) == 0 || thr[0] == want[1]))
+	}
+	for k, b := range ref.blocks {
+		rec, err := bst.dbGetBlock(k)
+		verifAssert("block-record-equals-the-delivered-block", err == nil && rec != nil && verifSameBlock(rec, b))
+	}
+	bst.Close()
+	if len(ref.blocks) >= 3 {
+		verifReach("several-blocks-committed")
+	}
+	verifReach("end")
+}
+
+// C03/O6 — store type and cache size do not change the consensus output.
+func VerifHarness_C03_O6() { VerifHarness_C16_O5() }
